@@ -673,6 +673,12 @@ func extractC01() *lean {
 	}
 	// deepening round: more hand-copied constants / tables of the model
 	_, rtypes := parseFile("vcr/revocation/types.go")
+	for _, d := range rtypes.Decls {
+		if fd, ok := d.(*ast.FuncDecl); ok && fd.Name.Name == "Validate" && fd.Recv != nil && len(fd.Recv.List) == 1 && c01Expr(fd.Recv.List[0].Type) == "StatusList2021Entry" {
+			r := c01Returns(fd)
+			l.def("statusEntryValidateReturns", "List String", leanStrList(r), r)
+		}
+	}
 	if v, ok := c01Const(rtypes, "StatusList2021EntryType"); ok {
 		l.def("c_StatusList2021EntryType", "String", v, v)
 	} else {
